@@ -16,6 +16,8 @@ def run(ctx):
     ctx.rule("R03-3", "after every run_proc the shell's previous_status is assigned the result's status "
                       "before the next iteration")
     ctx.rule("R03-4", "$? formats previous_status, $$ formats getpid()")
+    ctx.rule("R03-6", "the status the list operators test is the pipeline's: wait_fg_job reports the LAST stage's status "
+                      "(written only under pid == *pids.last()), whatever order the stages finish in")
     ctx.rule("R03-5", "cicada -c exits with previous_status; a script run exits with run_script's value, "
                       "which is the status of the last command result")
     for crate in ctx.crates:
@@ -25,6 +27,7 @@ def run(ctx):
             loop_rules(ctx, crate, body)
         dollar_rule(ctx, crate)
         exit_rules(ctx, crate)
+        pipeline_status_rule(ctx, crate)
 
 
 def find_list_loop(body):
@@ -280,3 +283,24 @@ def exit_rules(ctx, crate):
                            key="R03-5|main|%s" % sel, where=m.loc(bb), crate=crate.kind,
                            detail="; ".join(render(m.call_args(x)[0])[:60] for x in exits))
         ctx.require(hit, "R03-5", "R03-5|main|arm|%s" % sel, "no branch on %s() in main" % sel, "main")
+
+
+def pipeline_status_rule(ctx, crate):
+    """the status `&&` / `||` / `$?` see comes from wait_fg_job: reuse the C02 status rules under this property"""
+    from . import c02
+    wj = crate.fn("jobc::wait_fg_job")
+    if not ctx.require(wj is not None, "R03-6", "R03-6|anchor", "jobc::wait_fg_job not found"):
+        return
+    ctx.analysed(wj)
+    sub = type(ctx)("C03", ctx.tier, ctx.crates, ctx.root)
+    c02.wait_fg_rules(sub, crate, wj)
+    c02.status_const_rule(sub, crate)
+    for o in sub.obligations:
+        if "status" in o["what"] or "get_status" in o["what"]:
+            o["rule"] = "R03-6"
+            ctx.obligations.append(o)
+    for k, v in sub.violations.items():
+        if "status" in k or "constants" in k:
+            v["rule"] = "R03-6"
+            v["key"] = "R03-6" + k[5:]
+            ctx.violations[v["key"]] = v
